@@ -107,21 +107,56 @@ func runC12(c *Ctx) {
 		}
 		return false
 	}
-	waits := Calls(si, sWait)
+	// startInstances and the named helpers only it calls (startFirstInstance, startRestInstances); the functions that
+	// make an instance are creation events, not part of the sequence
+	var region []*ssa.Function
+	for _, g := range FindFuncs(si, 2, func(g *ssa.Function) bool {
+		return g == si || (g.Parent() == nil && g != newInst && g != runNew && PkgOf(g) == PkgOf(si) && P.WithinOnly(g, func(f *ssa.Function) bool { return f == si }, 3))
+	}) {
+		region = append(region, g)
+	}
+	var waits []ssa.Instruction
+	waitsOf := map[*ssa.Function][]ssa.Instruction{}
+	for _, g := range region {
+		waitsOf[g] = Calls(g, sWait)
+		waits = append(waits, waitsOf[g]...)
+	}
+	// a Wait, or the call of a helper of the region that waits for tokens itself (its own waits are checked there)
 	isWaitCall := func(in ssa.Instruction) bool {
 		for _, w := range waits {
 			if w == in {
 				return true
 			}
 		}
+		if cl, ok := in.(*ssa.Call); ok {
+			if sc := cl.Call.StaticCallee(); sc != nil && sc != in.Parent() && len(waitsOf[sc]) > 0 {
+				return true
+			}
+		}
 		return false
 	}
 	var creations []ssa.Instruction
-	EachInstr(si, func(in ssa.Instruction) {
+	for _, g := range region {
+		EachInstr(g, func(in ssa.Instruction) {
+			if createsInstance(in) {
+				creations = append(creations, in)
+			}
+		})
+	}
+	creationWeight := func(in ssa.Instruction) (int, int) {
 		if createsInstance(in) {
-			creations = append(creations, in)
+			return 1, 1
 		}
-	})
+		return 0, 0
+	}
+	// a helper that waits for tokens creates nothing before its first Wait
+	for _, g := range region {
+		if g == si || len(waitsOf[g]) == 0 {
+			continue
+		}
+		iv := PathQuery{Fn: g, Stop: isWaitCall, Weight: creationWeight}.Count()
+		c.Check(iv.Is(0, 0), "O12.1", fk(g)+":no-creation-before-the-first-token", g.Pos(), fmt.Sprintf("instance creations between the entry of the helper and its first Wait / return = %v (want [0,0])", iv))
+	}
 	c.Floor("O12.1", "instance creation sites in startInstances", len(creations), 2)
 	c.Floor("O12.1", "Waiter.Wait calls in startInstances", len(waits), 2)
 	for _, w := range waits {
@@ -134,7 +169,7 @@ func runC12(c *Ctx) {
 		c.Check(isStartCtx(cc.Args[1]), "O12.1", sk+":wait-under-start-context", w.Pos(), "Wait must observe the start context (cancelled on out of ammo / RPS schedule finish)")
 		wv := w.(*ssa.Call)
 		okPred := func(v ssa.Value) bool { return DerivesOnly(v, false, IsResultOf(wv, -1)) }
-		iv := PathQuery{Fn: si, Start: w, Edge: RestrictBool(okPred, true),
+		iv := PathQuery{Fn: w.Parent(), Start: w, Edge: RestrictBool(okPred, true),
 			Stop: func(in ssa.Instruction) bool { return isWaitCall(in) },
 			Weight: func(in ssa.Instruction) (int, int) {
 				if createsInstance(in) {
@@ -143,7 +178,7 @@ func runC12(c *Ctx) {
 				return 0, 0
 			}}.Count()
 		c.Check(iv.Is(1, 1), "O12.1", sk+":one-creation-per-token", w.Pos(), fmt.Sprintf("instance creations between a successful Wait and the next Wait/return = %v (want [1,1])", iv))
-		ivF := PathQuery{Fn: si, Start: w, Edge: RestrictBool(okPred, false),
+		ivF := PathQuery{Fn: w.Parent(), Start: w, Edge: RestrictBool(okPred, false), Stop: isWaitCall,
 			Weight: func(in ssa.Instruction) (int, int) {
 				if createsInstance(in) {
 					return 1, 1
@@ -193,6 +228,9 @@ func runC12(c *Ctx) {
 					okLater = true
 					nInit, nBack := 0, 0
 					for _, e := range phi.Edges {
+						if _, isP := e.(*ssa.Parameter); isP {
+							e = Resolve(e) // the count so far handed to the helper that runs the loop
+						}
 						if b, ok := e.(*ssa.BinOp); ok && b.Op == token.ADD {
 							one, is1 := ConstInt(b.Y)
 							if is1 && one == 1 && b.X == ssa.Value(phi) {
